@@ -112,14 +112,22 @@ func schedH(line string) string {
 	in := unhex(f[1])
 	run := func() string {
 		switch f[0] {
-		case "p":
+		case "p", "a":
 			rs := &runeScanner{s: in, prev: -1, failAt: -1, err: errInjected}
-			if f[2] != "" {
+			var penv *interp.ExecEnv
+			if f[0] == "a" {
+				// field 2 is an alias table
+				penv = interp.NewExecEnv("sh")
+				for _, kv := range splitNE(f[2], ",") {
+					p := strings.Split(kv, "=")
+					penv.Aliases[unhex(p[0])] = unhex(p[1])
+				}
+			} else if f[2] != "" {
 				// the source starts failing at this rune index
 				rs.failAt, _ = strconv.Atoi(f[2])
 			}
 			before := runtime.NumGoroutine()
-			cmds, comments, err := parser.ParseCommands(nil, "t", rs)
+			cmds, comments, err := parser.ParseCommands(penv, "t", rs)
 			after := settle(before)
 			leak := ""
 			if after > before {
